@@ -155,6 +155,20 @@ v('c15r7-selection-survives-reload', 'C15', 'C15-R7', 'src/terminal.go', "\t\t\t
 v('c02r5-last-char-lower-only', 'C02', 'C02-R5', 'src/algo/algo.go', "\t\tbu = b - 32\n", "\t\tbu = b\n")
 v('c02r5-skip-lower-only', 'C01', 'C02-R5', 'src/algo/algo.go', "\t\tuidx := bytes.IndexByte(byteArray, b-32)\n\t\tif uidx >= 0 {\n\t\t\tidx = uidx\n\t\t}\n", "")
 
+v('c13r7-worker-writes-item', 'C13', 'C13-R7', 'src/result.go', "func buildResult(item *Item, offsets []Offset, score int) Result {\n", "func buildResult(item *Item, offsets []Offset, score int) Result {\n\tif len(offsets) == 0 {\n\t\titem.colors = nil\n\t}\n")
+v('c11r11-colon-only-when-no-semicolon', 'C11', 'C11-R11', 'src/ansi.go', "\t} else if j := strings.IndexByte(s[:i], ':'); j >= 0 {\n\t\t// A colon comes before the first semicolon (e.g. \"38:5:100;4\")\n\t\ti = j\n\t}\n", "\t}\n")
+v('c05r10-unguarded-lookahead', 'C05', 'C05-R10', 'src/algo/algo.go', "next < M && j < lastIdx && j+1 >= int(F[next]) {", "next < M && j < lastIdx {")
+
+v('c03r4-scheme-as-typed', 'C03', 'C03-R4', 'src/options.go', "\tstr = strings.ToLower(str)\n\tswitch str {\n\tcase \"history\":", "\tswitch strings.ToLower(str) {\n\tcase \"history\":")
+v('c03r4-default-under-criteria', 'C01', 'C03-R4', 'src/options.go', "\tif len(opts.Scheme) == 0 {\n\t\topts.Scheme = \"default\"\n\t\tif len(opts.Criteria) == 0 {", "\tif len(opts.Scheme) == 0 && len(opts.Criteria) == 0 {\n\t\topts.Scheme = \"default\"\n\t\t{")
+v('c01r5-isempty-one-mode', 'C01', 'C01-R5', 'src/pattern.go', "\tif !p.extended {\n\t\treturn len(p.text) == 0\n\t}\n\treturn len(p.termSets) == 0", "\treturn len(p.termSets) == 0")
+v('c02r3-raw-pidx', 'C02', 'C02-R3', 'src/algo/algo.go', "if ok && pidx_ == len(pattern)-1 {", "if ok && pidx == len(pattern)-1 {")
+v('c02r6-store-only-when-normalising', 'C02', 'C02-R6', 'src/algo/algo.go', "\t\t\tif normalize {\n\t\t\t\tchar = normalizeRune(char)\n\t\t\t}\n\t\t\tT[off] = char\n", "\t\t\tif normalize {\n\t\t\t\tchar = normalizeRune(char)\n\t\t\t\tT[off] = char\n\t\t\t}\n")
+v('c04r8-raw-uint16', 'C04', 'C04-R8', 'src/util/chars.go', "chars.trimLength = AsUint16(i - j + 1)", "chars.trimLength = uint16(i - j + 1)")
+v('c04r9-sort-keeps-cache', 'C04', 'C04-R9', 'src/matcher.go', "\t\tif request.sort != m.sort || request.revision != m.revision {\n\t\t\tm.sort = request.sort\n", "\t\tif request.sort != m.sort {\n\t\t\tm.sort = request.sort\n\t\t\tdelete(m.mergerCache, request.pattern.AsString())\n\t\t}\n\t\tif request.revision != m.revision {\n")
+v('c13r8-build-outside-lock', 'C13', 'C13-R8', 'src/chunklist.go', "\tret := cl.lastChunk().push(cl.trans, data)\n\tcl.mutex.Unlock()\n\treturn ret\n", "\tchunk := cl.lastChunk()\n\tcl.mutex.Unlock()\n\treturn chunk.push(cl.trans, data)\n")
+v('c06r6-itemlines-alias', 'C06', 'C06-R6', 'src/terminal.go', "\t\ttext := make([]rune, item.text.Length())\n\t\tcopy(text, item.text.ToRunes())\n\t\treturn [][]rune{text}, false\n", "\t\treturn [][]rune{item.text.ToRunes()}, false\n")
+
 # ---- benign edits (must stay silent)
 b('rename-previousInput', ['C08', 'C09'], 'src/terminal.go', 'previousInput', 'inputBefore', count=0)
 b('rename-leftover', ['C06'], 'src/reader.go', 'leftover', 'carry', count=0)
@@ -186,39 +200,59 @@ b('reload-reset-order', ['C15'], 'src/terminal.go', "\t\t\tt.selected = make(map
 
 b('prefilter-upper-first', ['C01', 'C02', 'C03', 'C05'], 'src/algo/algo.go', "\t\tif scope[offset] == b || scope[offset] == bu {", "\t\tif scope[offset] == bu || scope[offset] == b {")
 
+b('replace-query-append-copy', ['C06', 'C07', 'C13'], 'src/terminal.go', "t.input = copySlice(current.text.ToRunes())", "t.input = append([]rune{}, current.text.ToRunes()...)")
+b('asuint16-switch', ['C04'], 'src/util/util.go', "\tif val > math.MaxUint16 {\n\t\treturn math.MaxUint16\n\t} else if val < 0 {\n\t\treturn 0\n\t}\n\treturn uint16(val)", "\tif val < 0 {\n\t\treturn 0\n\t}\n\tif val > math.MaxUint16 {\n\t\treturn math.MaxUint16\n\t}\n\treturn uint16(val)")
+
+b('tmux-first-token-geq', ['C17'], 'src/options.go', "\tif len(tokens) > 0 {\n\t\tfirst = tokens[0]\n\t}", "\tif len(tokens) >= 1 {\n\t\tfirst = tokens[0]\n\t}")
+b('islocal-order', ['C16'], 'src/server.go', "return addr.host == \"localhost\" || addr.host == \"127.0.0.1\"", "return addr.host == \"127.0.0.1\" || addr.host == \"localhost\"")
+b('history-current-rename', ['C18'], 'src/history.go', "\tif str, prs := h.modified[h.cursor]; prs {\n\t\treturn str\n\t}", "\tif edited, found := h.modified[h.cursor]; found {\n\t\treturn edited\n\t}")
+b('awk-white-order', ['C10'], 'src/tokenizer.go', "white := r == 9 || r == 32", "white := r == 32 || r == 9")
+b('proxy-remove-order', ['C14'], 'src/proxy.go', "\t\t\t\tos.Remove(temp)\n\t\t\t\tos.Remove(input)\n\t\t\t\tos.Remove(output)\n", "\t\t\t\tos.Remove(output)\n\t\t\t\tos.Remove(input)\n\t\t\t\tos.Remove(temp)\n")
+b('reset-seq-first', ['C08'], 'src/matcher.go', "\tpattern := m.patternBuilder(patternRunes)\n\n\tvar event util.EventType\n\tif cancel {\n\t\tevent = reqReset\n\t} else {\n\t\tevent = reqRetry\n\t}\n\tm.reqSeq++\n", "\tm.reqSeq++\n\tpattern := m.patternBuilder(patternRunes)\n\n\tvar event util.EventType\n\tif cancel {\n\t\tevent = reqReset\n\t} else {\n\t\tevent = reqRetry\n\t}\n")
+
 def build(entries, outdir, kind):
+    """One persistent scratch worktree per worker (same path for every variant, so the Go build cache hits);
+    removed at the end."""
+    import concurrent.futures, threading
     os.makedirs(outdir, exist_ok=True)
     for f in os.listdir(outdir):
         if f.endswith('.diff'): os.remove(os.path.join(outdir, f))
-    index = []
-    for e in entries:
-        d = tempfile.mkdtemp(prefix='genvar-')
+    NW = 6
+    base = tempfile.mkdtemp(prefix='genvar-')
+    env = dict(os.environ, GOFLAGS='-mod=mod', GOPROXY='off', GOSUMDB='off', GOTOOLCHAIN='local')
+    env.pop('GOWORK', None)
+    wts = []
+    for i in range(NW):
+        wt = f'{base}/wt{i}'
+        subprocess.run(['git', '-C', REPO, 'worktree', 'add', '-q', '--detach', wt, 'HEAD'], check=True)
+        wts.append(wt)
+    free = list(wts); lock = threading.Lock()
+    def one(e):
+        with lock: wt = free.pop()
         try:
-            subprocess.run(['git', '-C', REPO, 'worktree', 'add', '-q', '--detach', d + '/wt', 'HEAD'], check=True)
-            p = os.path.join(d, 'wt', e['file'])
+            subprocess.run(['git', '-C', wt, 'checkout', '-q', '--', '.'], check=True)
+            p = os.path.join(wt, e['file'])
             s = open(p).read()
             if e['old'] not in s:
-                index.append(dict(e, status='not generated: anchor text not present')); continue
-            if e['count'] == 0: s2 = s.replace(e['old'], e['new'])
-            else: s2 = s.replace(e['old'], e['new'], e['count'])
-            if e['name'] == 'new-action':
-                s2 = s2.replace("\t\t\tcase actBell:\n\t\t\t\tt.tui.Bell()\n", "\t\t\tcase actBell:\n\t\t\t\tt.tui.Bell()\n\t\t\tcase actNoop:\n")
+                return dict(e, status='not generated: anchor text not present')
+            s2 = s.replace(e['old'], e['new']) if e['count'] == 0 else s.replace(e['old'], e['new'], e['count'])
             open(p, 'w').write(s2)
-            if e['name'] == 'new-action':
-                po = os.path.join(d, 'wt', 'src/options.go')
-                so = open(po).read().replace("\t\tcase \"bell\":\n\t\t\tappendAction(actBell)\n", "\t\tcase \"bell\":\n\t\t\tappendAction(actBell)\n\t\tcase \"noop\":\n\t\t\tappendAction(actNoop)\n")
-                open(po, 'w').write(so)
-                subprocess.run('cd %s/wt && go generate ./src/ >/dev/null 2>&1 || true' % d, shell=True)
-            diff = subprocess.run(['git', '-C', d + '/wt', 'diff'], stdout=subprocess.PIPE).stdout.decode()
-            env = dict(os.environ, GOFLAGS='-mod=mod', GOPROXY='off', GOSUMDB='off', GOTOOLCHAIN='local')
-            rc = subprocess.run('go build ./... && GOARCH=arm64 go build ./... && GOARCH=s390x go vet ./src/ >/dev/null 2>&1; go build ./...', shell=True, cwd=d + '/wt', env=env, stdout=subprocess.PIPE, stderr=subprocess.STDOUT)
+            diff = subprocess.run(['git', '-C', wt, 'diff'], stdout=subprocess.PIPE).stdout.decode()
+            rc = subprocess.run('go build ./... && GOARCH=arm64 go build ./...', shell=True, cwd=wt, env=env, stdout=subprocess.PIPE, stderr=subprocess.STDOUT)
             if rc.returncode != 0:
-                index.append(dict(e, status='not generated: does not build: ' + rc.stdout.decode()[-200:])); continue
+                return dict(e, status='not generated: does not build: ' + rc.stdout.decode()[-200:])
             open(os.path.join(outdir, e['name'] + '.diff'), 'w').write(diff)
-            index.append(dict(e, status='ok'))
+            return dict(e, status='ok')
         finally:
-            subprocess.run(['git', '-C', REPO, 'worktree', 'remove', '--force', d + '/wt'])
-            shutil.rmtree(d, ignore_errors=True)
+            subprocess.run(['git', '-C', wt, 'checkout', '-q', '--', '.'])
+            with lock: free.append(wt)
+    try:
+        with concurrent.futures.ThreadPoolExecutor(max_workers=NW) as ex:
+            index = list(ex.map(one, entries))
+    finally:
+        for wt in wts:
+            subprocess.run(['git', '-C', REPO, 'worktree', 'remove', '--force', wt])
+        shutil.rmtree(base, ignore_errors=True)
     for e in index:
         e.pop('old', None); e.pop('new', None)
     json.dump(index, open(os.path.join(outdir, 'index.json'), 'w'), indent=1)
